@@ -98,7 +98,9 @@ def cases(draw, tier='quick'):
             'total': draw(st.one_of(st.sampled_from([1.0, 1, 100, 0.01, 1e6]), st.floats(0.01, 1e4))),
             'total2': draw(st.sampled_from([None, None, 40.0, 0.5])),
             'iters': draw(st.sampled_from([1, 2, 10, 100])), 'inner_pots': draw(st.booleans()),
-            'minimal': draw(st.sampled_from([True, True, False]))}
+            'minimal': draw(st.sampled_from([True, True, False])),
+            # structural zeros as LocalInference folds them into the potentials: -inf cells / a whole forbidden value
+            'ninf': draw(st.sampled_from([None, None, None, 'cells', 'slice']))}
 
 
 def strategy(tier):
@@ -129,14 +131,26 @@ def run_case(case):
     mode = case['mode']
     cliques = [tuple('%s_%s' % (a, 'attr') for a in c) for c in case['cliques']]
     rng = np.random.Generator(np.random.PCG64(case['seed']))
-    out.classes = ['mode:' + mode]
+    out.classes = ['mode:' + mode] + (['structural_zeros:' + case['ninf']] if case.get('ninf') else [])
 
     def pots_for(keys, only=None):
         d = {}
         for r in keys:
             shp = [sizes[a] for a in r]
             if only is None or r in only:
-                d[r] = mbi.Factor(domain.project(r), rng.standard_normal(size=shp) * case['scale'])
+                v = rng.standard_normal(size=shp) * case['scale']
+                kind = case.get('ninf')
+                if kind == 'cells' and v.size > 1:
+                    m = rng.random(size=shp) < 0.3
+                    m[(0,) * len(shp)] = False          # the all-zero assignment always stays possible
+                    v = np.where(m, -np.inf, v)
+                elif kind == 'slice' and rng.random() < 0.5:
+                    ax = [i for i, n_ in enumerate(shp) if n_ >= 2]
+                    if ax:
+                        i = ax[int(rng.integers(0, len(ax)))]
+                        idx = [slice(None)] * len(shp); idx[i] = shp[i] - 1
+                        v[tuple(idx)] = -np.inf
+                d[r] = mbi.Factor(domain.project(r), v)
             else:
                 d[r] = mbi.Factor.zeros(domain.project(r))
         return mbi.CliqueVector(d)
